@@ -40,7 +40,7 @@ def octabox(sub=0):
     return dict(bitmap=bitmap, diag=(0, 255, 0, 255), subs=subs)
 
 
-def s_full(version=5, glat_version=3, compress=(), rtl=False, with_collision=True, subboxes=True, glyf=True, extra_attr_glyphs=0, dense_attrs=False, line_ends=False, cmap_edges=False):
+def s_full(version=5, glat_version=3, compress=(), rtl=False, with_collision=True, subboxes=True, glyf=True, extra_attr_glyphs=0, dense_attrs=False, line_ends=False, cmap_edges=False, pass_bits=False):
     names = ['notdef', 'space', 'a', 'b', 'c', 'd', 'x', 'y', 'z', 'acute', 'grave', 'pseudo', 'astral', 'lig', 'e', 'f']
     glyphs = []
     for i, n in enumerate(names):
@@ -53,6 +53,7 @@ def s_full(version=5, glat_version=3, compress=(), rtl=False, with_collision=Tru
                 attrs.update({c: 1, c + 1: (-200) & 0xFFFF, c + 2: (-200) & 0xFFFF, c + 3: 200, c + 4: 200, c + 5: 10, c + 6: 5})
         if n == 'space': attrs[GA['brk']] = 10; attrs[GA['jstretch']] = 400; attrs[GA['jshrink']] = 100; attrs[GA['jstep']] = 1; attrs[GA['jweight']] = 1
         if n == 'pseudo': attrs[GA['pseudo']] = G['x']
+        if pass_bits and n in ('c', 'd', 'e', 'f', 'space'): attrs[GA['passbits']] = 0b0110      # a segment made only of these glyphs skips passes 1 and 2
         if dense_attrs and n == 'e':          # a glyph that stores a value for EVERY attribute of the font (capacity == numAttrs)
             for k in range(34): attrs.setdefault(k, 1)
         if dense_attrs and n == 'd': attrs[33] = 9          # only the last attribute number
@@ -96,7 +97,7 @@ def s_full(version=5, glat_version=3, compress=(), rtl=False, with_collision=Tru
         flags |= 0x20
     silf = dict(version=version, passes=passes, classes=classes, nlinear=nlinear, pseudos=[(0x2022, G['pseudo'])],
                 jlevels=[(GA['jstretch'], GA['jshrink'], GA['jstep'], GA['jweight'])], iSubst=0, iPos=2, iJust=len(passes), flags=flags,
-                aPseudo=GA['pseudo'], aBreak=GA['brk'], aBidi=GA['bidi'], aMirror=GA['mirror'], aPassBits=0, numUser=2, dir=1 if rtl else 0,
+                aPseudo=GA['pseudo'], aBreak=GA['brk'], aBidi=GA['bidi'], aMirror=GA['mirror'], aPassBits=GA['passbits'] if pass_bits else 0, numUser=2, dir=1 if rtl else 0,
                 aCollision=GA['coll'] if (with_collision and glat_version >= 3) else 0, critFeatures=[0], scriptTags=[tag('latn')], maxPre=1, maxPost=2)
     return dict(glyphs=glyphs, cmap=cm, cmap12=True, num_attrs=34, glat_version=glat_version, gloc_long=True, glyf=glyf, extra_attr_glyphs=extra_attr_glyphs, silf=silf,
                 names={256: 'Feature One', 257: 'Off', 258: 'On', 259: 'Second', 260: 'Zero', 261: 'Two', 262: 'Héllo \U00010400'},
@@ -165,7 +166,7 @@ def write_all(outdir):
     fonts = {'s_min': s_min(), 's_full': s_full(), 's_full_z': s_full(compress=('Silf', 'Glat')), 's_full_v3': s_full(version=3, glat_version=1, with_collision=False),
              's_full_v4': s_full(version=4, glat_version=2, with_collision=False), 's_full_rtl': s_full(rtl=True), 's_full_nosub': s_full(subboxes=False),
              's_full_zs': s_full(compress=('Silf',)), 's_full_zg': s_full(compress=('Glat',)),
-             's_full_noglyf': s_full(glyf=False), 's_full_extra': s_full(extra_attr_glyphs=3), 's_full_dense': s_full(dense_attrs=True), 's_full_le': s_full(line_ends=True), 's_full_cmapedge': s_full(cmap_edges=True), 's_full_rtl_le': s_full(rtl=True, line_ends=True)}
+             's_full_noglyf': s_full(glyf=False), 's_full_extra': s_full(extra_attr_glyphs=3), 's_full_dense': s_full(dense_attrs=True), 's_full_le': s_full(line_ends=True), 's_full_cmapedge': s_full(cmap_edges=True), 's_full_pb': s_full(pass_bits=True), 's_full_rtl_le': s_full(rtl=True, line_ends=True)}
     fonts.update(feat_family())
     index = {}
     for name, spec in fonts.items():
